@@ -86,7 +86,7 @@ pub struct Snapped {
     pub bits: String,
 }
 pub const DEV_CAP: i64 = 1 << 30;
-pub const COORD_CAP: f64 = 1_000_000.0;
+pub const COORD_CAP: f64 = 1_000_000_000.0;
 
 pub fn fnv(h: &mut u64, x: u64) {
     for i in 0..8 {
@@ -243,6 +243,25 @@ pub fn call<F: Fl>(a: &MultiPolygon<F>, b: &MultiPolygon<F>, op: Operation, px: 
             let outcome = if msg.contains(geo_booleanop::boolean::verif::BUDGET_MESSAGE) { "budget" } else { "panic" };
             (Outcome { outcome: outcome.into(), msg, popped }, None)
         }
+    }
+}
+
+/// `call` under a wall-clock guard: the library call runs on its own thread; if it has not
+/// returned after `secs` seconds the outcome is "timeout" (the thread is abandoned - the caller
+/// must end the process soon). A hang is data, like a panic.
+pub fn call_guarded<F: Fl>(a: &MultiPolygon<F>, b: &MultiPolygon<F>, op: Operation, px: char, py: char, budget: u64, secs: u64) -> (Outcome, Option<MultiPolygon<F>>) {
+    let (a2, b2) = (a.clone(), b.clone());
+    let (tx, rx) = std::sync::mpsc::channel();
+    let h = std::thread::Builder::new().stack_size(64 << 20).spawn(move || {
+        let r = call(&a2, &b2, op, px, py, budget);
+        let _ = tx.send(r);
+    });
+    if h.is_err() {
+        return (Outcome { outcome: "panic".into(), msg: "could not spawn".into(), popped: 0 }, None);
+    }
+    match rx.recv_timeout(std::time::Duration::from_secs(secs)) {
+        Ok(r) => r,
+        Err(_) => (Outcome { outcome: "timeout".into(), msg: format!("no return after {} s", secs), popped: 0 }, None),
     }
 }
 
